@@ -42,7 +42,7 @@ MANIFEST = {
                  "every step, ddmin replay",
 }
 CONFIGS = {
-    "quick": [("simple", 30000), ("digraph", 20000), ("bipartite", 20000)],
+    "quick": [("simple", 16000), ("digraph", 10000), ("bipartite", 10000)],
     "thorough": [("simple", 4), ("digraph", 3), ("bipartite", 3)],
 }
 CHUNK = 300
@@ -59,13 +59,13 @@ def generate(rng, config):
     case = {"type": config}
     nops = rng.choice([1, 2, 3, 5, 8, 12, 20, 30, 40])
     if config == "bipartite":
-        L = rng.choice([0, 1, 2, 3, 4, 5, 6])
-        R = rng.choice([0, 1, 2, 3, 4, 5, 6])
+        L = rng.choice([0, 1, 2, 3, 4, 5, 6, 10, 12, 17])
+        R = rng.choice([0, 1, 2, 3, 4, 5, 6, 10, 11, 16])
         case["L"], case["R"] = L, R
         case["ctor"] = rng.choice(["plain", "plain", "plain", "complete"])
         dims = (L, R)
     else:
-        n = rng.choice([0, 1, 2, 3, 4, 5, 6, 7, 8])
+        n = rng.choice([0, 1, 2, 3, 4, 5, 6, 7, 8, 8, 10, 11, 16, 17, 33])
         case["n"] = n
         if config == "simple":
             case["ctor"] = rng.choice(["plain", "plain", "plain", "complete",
@@ -109,11 +109,11 @@ def generate(rng, config):
             k = rng.choice([0, cur[0] - 1, cur[0], cur[0] + 1, cur[0] + 2,
                             -1, 3])
             ops.append({"op": "grow", "n": k})
-            if k > cur[0] and k <= 12:
+            if k > cur[0] and k <= 40:
                 cur[0] = cur[1] = k
-            elif k > 12:
-                ops[-1]["n"] = 12
-                cur[0] = cur[1] = max(cur[0], 12)
+            elif k > 40:
+                ops[-1]["n"] = 40
+                cur[0] = cur[1] = max(cur[0], 40)
         else:
             ops.append({"op": "noop_read"})
     case["ops"] = ops
